@@ -1504,6 +1504,16 @@ func (fv *FV) bindQuant(env *Env, q *SQuant) (*Env, string) {
 func (fv *FV) quantPatterns(e2 *Env, q *SQuant) string {
 	var pats []string
 	for _, tr := range q.Trig {
+		// {weight(N)}: instantiation weight — instances of this quantifier count N generations older than they
+		// are, which bounds how deep a recursive structure invariant is unfolded eagerly
+		if len(tr) == 1 {
+			if c, ok := tr[0].(*SCall); ok && c.Fn == "weight" && len(c.Args) == 1 {
+				if n, ok := c.Args[0].(*SInt); ok {
+					pats = append(pats, fmt.Sprintf(":weight %v", n.V))
+					continue
+				}
+			}
+		}
 		var ts []string
 		for _, t := range tr {
 			ts = append(ts, fv.spec(e2, t).S)
@@ -1681,6 +1691,10 @@ func (fv *FV) callsComp(part, sort string) string {
 	switch part {
 	case "len":
 		fv.compSort[key] = sInt
+		if !fv.declared["axiom:C:len>=0"] {
+			fv.declared["axiom:C:len>=0"] = true
+			fv.axioms = append(fv.axioms, app(">=", compConst(key), "0")) // a callback has been called a non-negative number of times
+		}
 	case "ret":
 		fv.compSort[key] = arr(sInt, sBool)
 	case "arg":
